@@ -5,8 +5,8 @@ fn ascii_string<const L: usize, S: Src>(s: &mut S) -> (String, [u8; L]) {
     let b: [u8; L] = s.bytes();
     let mut i = 0;
     while i < L { s.assume(b[i] < 0x80); i += 1; }
-    // ASCII by assumption, so valid UTF-8 (validation of symbolic bytes is what CBMC cannot afford)
-    (unsafe { String::from_utf8_unchecked(b.to_vec()) }, b)
+    // ASCII by assumption, so valid UTF-8 (gix-url forbids unsafe code, hence the checked conversion; L is tiny)
+    (String::from_utf8(b.to_vec()).expect("ASCII is UTF-8"), b)
 }
 
 /// looks_like_command_line_option(b) <=> b starts with '-'
